@@ -945,8 +945,11 @@ fn encode_template_to_native_script(
                     let n = if let serde_json::Value::Number(at_least) =
                         some.get("at_least").unwrap()
                     {
-                        if let Some(n) = at_least.as_u64() {
-                            n as u32
+                        if let Some(n) = at_least
+                            .as_u64()
+                            .and_then(|n| <u32 as std::convert::TryFrom<u64>>::try_from(n).ok())
+                        {
+                            n
                         } else {
                             return Err(JsError::from_str("at_least must be an integer"));
                         }
